@@ -166,12 +166,12 @@ func has(set []int, v int) bool {
 }
 
 // feature returns the signature suffix for scenarios outside the restrictions under which the published ALGORITHM
-// is proved correct (computed by the spec, see Features in KnuthPlass.tla).
+// is proved correct (computed by the spec, see Features in KnuthPlass.tla). Only the empty-line-before-glue feature
+// still qualifies a signature: the "deact" feature (a penalty's width makes the line to b longer than the line to a
+// later breakpoint) explained a defect that is repaired in /repo (fix: 6dc7788), so a deviation on such a scenario is
+// reported under its plain name again.
 func (v *Verdict) feature() string {
-	if v.hasFeat("deact") {
-		return "-nonmonotone-penalty-width"
-	}
-	if v.hasFeat("emptyglue") {
+	if v.hasFeat("emptydeact") {
 		return "-empty-line-before-glue"
 	}
 	return ""
